@@ -189,6 +189,53 @@ pub fn run(args: &Args) -> Report {
                 }
             }
         }
+        // built-in definition and a DIFFERENT in-file definition that accepts the same content (every integer member
+        // turned into a float member): the built-in definition is tried first, so the content must be read - and written
+        // back, notation included - exactly as with the built-in definition alone
+        {
+            let mut variant = String::new();
+            for (k, w) in case.a2ml.split(' ').enumerate() {
+                if k > 0 {
+                    variant.push(' ');
+                }
+                let core = w.trim_end_matches(';');
+                if ["uchar", "uint", "ulong", "int", "long", "uint64", "int64"].contains(&core) {
+                    variant.push_str("float");
+                    variant.push_str(&w[core.len()..]);
+                } else {
+                    variant.push_str(w);
+                }
+            }
+            if variant != case.a2ml {
+                let ifdata_part = |w: &str| -> String {
+                    match (w.find("/begin IF_DATA"), w.rfind("/end IF_DATA")) {
+                        (Some(a), Some(b)) if a < b => w[a..b].to_string(),
+                        _ => String::new(),
+                    }
+                };
+                let t_builtin = doc(None, &insts);
+                let t_both = doc(Some(&variant), &insts);
+                let input = format!("{} {}", hex(t_both.as_bytes()), hex(case.a2ml.as_bytes()));
+                rep.case(&input, true);
+                rep.bump("supply:both-different");
+                match (load_spec(&t_builtin, Some(case.a2ml.clone()), false), load_spec(&t_both, Some(case.a2ml.clone()), false)) {
+                    (Loaded::Ok(f1, _), Loaded::Ok(f2, _)) => {
+                        let (w1, w2) = (ifdata_part(&f1.write_to_string()), ifdata_part(&f2.write_to_string()));
+                        if w1 != w2 {
+                            let (a, b) = crate::c01::first_diff(&w1, &w2);
+                            rep.fail("values-changed", input.clone(), format!("with a built-in definition and a different in-file definition the content is not read by the built-in one: IF_DATA text differs at line {a}: {b}"));
+                        }
+                    }
+                    (Loaded::Panic(p), _) | (_, Loaded::Panic(p)) => rep.fail("panic", input.clone(), p),
+                    (Loaded::Ok(..), Loaded::Err(e)) => {
+                        // the variant definition may be rejected as a definition (then the file does not load): not a case
+                        rep.bump("supply:both-different:in-file-variant-rejected");
+                        let _ = e;
+                    }
+                    _ => {}
+                }
+            }
+        }
         // deviations: single-token changes inside one instance, balanced garbage, and (k = 4) a member that is defined
         // without `block` written as /begin TAG ... /end TAG (balanced, three tokens more, does not conform)
         for k in 0..5 {
